@@ -49,6 +49,9 @@ EVENTS = {'position': 'on_position_change', 'rotation': 'on_rotation_change',
 
 def _rot(rng):
     k = rng.random()
+    if k < 0.01:
+        # not a number / infinite: nothing to reduce, the result is NaN
+        return rng.choice(['nan', 'inf', '-inf'])
     if k < 0.04:
         # tiny negative values (and values just below a multiple of 360):
         # the exact residue lies within rounding distance of 360
@@ -140,6 +143,8 @@ def gen_cases(tier, seed):
 
 
 def _mk(desper, dim, spec):
+    if isinstance(spec, str):
+        return float(spec)
     if isinstance(spec, list):
         kind, comps = spec
         if kind == 'V':
@@ -152,6 +157,12 @@ def _mk(desper, dim, spec):
 
 def _exact(x):
     return Fraction(x)
+
+
+def _eq(a, b):
+    """Equality that also holds between two NaN read-backs."""
+    return bool(a == b) or (isinstance(a, float) and isinstance(b, float)
+                            and a != a and b != b)
 
 
 def run_case(case):
@@ -225,7 +236,7 @@ def run_case(case):
         for prop in PROPS:
             res.stats['ctor_comparisons'] += 1
             a, b = getattr(t, prop), getattr(twin, prop)
-            if not (a == b):
+            if not _eq(a, b):
                 res.div(-1, 'ctor-differs-from-assignment',
                         f'{classes[dim].__name__}({prop}=...) reads back '
                         'differently from the same value assigned',
@@ -304,7 +315,7 @@ def run_case(case):
                         good = False
                         break
                     known = [v for v in values if v is not None]
-                    if any(not any(g == k for g in got_v) for k in known):
+                    if any(not any(_eq(g, k) for g in got_v) for k in known):
                         res.div(at, 'same-transform-notification-value',
                                 f'listener {uid} of {p2} was not told the '
                                 'values the assignments stored',
@@ -317,7 +328,7 @@ def run_case(case):
             for p2 in per_prop:
                 if p2 != prop or same[-1][1] == prop:
                     last = [b for _, q, b in same if q == p2]
-                    if last and not (getattr(t, p2) == last[-1]):
+                    if last and not _eq(getattr(t, p2), last[-1]):
                         res.div(at, 'value-not-stored', f'{p2} after nested '
                                 'assignments on the same transform',
                                 repr(last[-1]), repr(getattr(t, p2)))
@@ -333,6 +344,23 @@ def run_case(case):
             continue
         # what was stored
         if prop == 'rotation' and dim == 2:
+            if assigned != assigned or assigned in (float('inf'),
+                                                    float('-inf')):
+                res.stats['non_finite_rotations'] += 1
+                if back == back:
+                    res.div(at, 'rotation-not-reduced', 'a non-finite '
+                            'rotation has no residue modulo 360: the '
+                            'property must read NaN, not a made-up angle',
+                            'nan', back)
+                    break
+                bad = [e for e in log if e[1] == 'rotation'
+                       and e[2] == e[2]]
+                if bad:
+                    res.div(at, 'notified-value-not-stored-value',
+                            'listeners were told a number while the '
+                            'property reads NaN', 'nan', repr(bad[0][2]))
+                    break
+                continue
             try:
                 inside = 0 <= back < 360
                 congruent = ((_exact(assigned) - _exact(back)) / 360
@@ -377,7 +405,7 @@ def run_case(case):
                 res.div(at, 'other-event-notified', f'listener {uid} got '
                         f'{EVENTS[p]} on an assignment to {prop}',
                         expected=None, observed=[uid, p, v])
-            elif not (v == back):
+            elif not _eq(v, back):
                 res.div(at, 'notified-value-not-stored-value',
                         f'listener {uid} was told a value that is not what '
                         f'the {prop} property reads right afterwards',
@@ -402,7 +430,7 @@ def run_case(case):
                 uid for uid, spec in enumerate(case['listeners'])
                 if target in spec['on'] and cprop in spec['events'])
             got2 = collections_counter(u for u, p, v in inner if p == cprop)
-            if got2 != want2 or any(not (v == back2) or p != cprop
+            if got2 != want2 or any(not _eq(v, back2) or p != cprop
                                     for u, p, v in inner):
                 res.div(at, 'nested-notification', 'an assignment made from '
                         'inside a notification (on another transform) did '
@@ -419,7 +447,7 @@ def run_case(case):
                     continue
                 res.stats['unchanged_comparisons'] += 1
                 now = getattr(x, p)
-                if not (now == snapshot[xi][pi]):
+                if not _eq(now, snapshot[xi][pi]):
                     res.div(at, 'unrelated-property-changed',
                             f'transform {xi}.{p} changed by an assignment to '
                             f'transform {ti}.{prop}',
